@@ -387,7 +387,11 @@ class Effects(object):
                 if root not in ff.params and root not in ff.assigns and root not in ff.elem_of and isinstance(bound, (ModRef, Ext)):
                     continue  # module function such as warnings.warn
                 own = isinstance(recv, ast.Name)
-                roots = ff.own_prov(recv.id) if own else ff.prov(recv)
+                if isinstance(recv, ast.Attribute) and isinstance(recv.value, ast.Name) and recv.value.id == ff.self_name:
+                    # a container attribute of the object itself: what it holds is not what is mutated
+                    roots = {"self." + recv.attr}
+                else:
+                    roots = ff.own_prov(recv.id) if own else ff.prov(recv)
                 out.append(Site(fi, node, "call:" + node.func.attr, node.func, roots, own=own))
         return out
 
